@@ -236,7 +236,12 @@ pub async fn read_http_request<const BUF_SIZE: usize>(
         .remove_only("expect")
         .map_or(false, |s| s.as_str() == "100-continue");
     let (gzip, chunked) = {
-        let opt_ascii_string = head.headers.remove_only("transfer-encoding");
+        // Reject repeated framing headers instead of treating them as absent.
+        let mut transfer_encodings = head.headers.remove_all("transfer-encoding");
+        if transfer_encodings.len() > 1 {
+            return Err(HttpError::UnsupportedTransferEncoding);
+        }
+        let opt_ascii_string = transfer_encodings.pop();
         let mut iter = opt_ascii_string
             .as_ref()
             .map(AsciiString::as_str)
@@ -268,7 +273,11 @@ pub async fn read_http_request<const BUF_SIZE: usize>(
             }
         }
     }
-    let content_length = if let Some(s) = head.headers.get_only("content-length") {
+    let content_lengths = head.headers.get_all("content-length");
+    if content_lengths.len() > 1 {
+        return Err(HttpError::InvalidContentLength);
+    }
+    let content_length = if let Some(s) = content_lengths.first() {
         Some(s.parse().map_err(|_| HttpError::InvalidContentLength)?)
     } else {
         None
